@@ -1393,6 +1393,7 @@ func (c *Ctx) r109() {
 				continue
 			}
 			g := c.graph(pk, fd)
+			var lc *linCtx
 			fname := pk.Name + "." + load.FuncName(fd)
 			seen := map[string]int{}
 			for _, e := range sites {
@@ -1406,18 +1407,46 @@ func (c *Ctx) r109() {
 				}
 				b, _ := intConst(info, ast.Unparen(e.High).(*ast.BinaryExpr).Y)
 				need := a + b
-				if need < 2 {
-					continue
+				if a < 1 || b < 1 {
+					continue // only the idiom that takes something off both ends
 				}
 				n++
 				v := nospace(str(e.X))
 				names := []string{v}
-				if id, ok := ast.Unparen(e.X).(*ast.Ident); ok {
-					if def := c.singleDef(pk, id); def != nil {
-						names = append(names, nospace(str(def)))
+				y := g.NodeOf(e)
+				if id, ok := ast.Unparen(e.X).(*ast.Ident); ok && y != nil {
+					// the definition of v reaching the slice, when there is exactly one: facts about its right-hand side count
+					if lc == nil {
+						lc = newLinCtx(c, info, g)
+					}
+					obj := info.Uses[id]
+					var reaching []*flow.Node
+					for _, d := range lc.assign[obj] {
+						if d == y {
+							continue
+						}
+						others := lc.assign[obj]
+						p := g.Path(flow.Search{From: []*flow.Node{d}, Goal: func(q *flow.Node) bool { return q == y }, Avoid: func(q *flow.Node) bool {
+							if q == d || q == y {
+								return false
+							}
+							for _, o := range others {
+								if o == q {
+									return true
+								}
+							}
+							return false
+						}})
+						if p != nil {
+							reaching = append(reaching, d)
+						}
+					}
+					if len(reaching) == 1 {
+						if as, ok := reaching[0].Stmt.(*ast.AssignStmt); ok && len(as.Lhs) == 1 && len(as.Rhs) == 1 {
+							names = append(names, nospace(str(as.Rhs[0])))
+						}
 					}
 				}
-				y := g.NodeOf(e)
 				var best int64 = -1
 				if y != nil {
 					for _, f := range g.DomFacts(y) {
@@ -1447,6 +1476,6 @@ func (c *Ctx) r109() {
 			}
 		}
 	}
-	c.R.Floor(rule, "delimiter-stripping slices", n, 12)
+	c.R.Floor(rule, "delimiter-stripping slices", n, 10)
 	_ = judged
 }
